@@ -225,7 +225,54 @@ pub fn framing_offsets(spec_: &RespSpec, head_len: usize) -> Vec<usize> {
     v
 }
 
+/// A response whose body was abandoned part-way (a few reads, then dropped), then — on the same thread — a
+/// response that is cut: nothing of the first may turn up as data of the second, and the cut is still an error
+/// (seeds C01-seed9 / C02-seed9: a chunk buffer recycled through a thread-local).
+fn abandoned_then_cut(rng: &mut Rng, thorough: bool, sink: &mut Sink) {
+    let line_limit = crate::consts().chunk_size_line_limit;
+    let rounds = if thorough { 30 } else { 4 };
+    for _ in 0..rounds {
+        for fa in 0..3u64 {
+            for fb in 0..3u64 {
+                let big = fa == 0 && rng.chance(1, 3);
+                let a = gen_valid(rng, fa, big);
+                if a.payload().len() < 2 {
+                    continue;
+                }
+                let take = 1 + rng.below(a.payload().len() as u64 - 1) as usize;
+                let ca = RespCase { method: "GET".into(), max_headers: 100, segs: vec![Seg::Data(a.wire())], reads: Reads::Sizes(vec![take.min(5), take]) };
+                let _ = run_resp(&ca);
+                // the second response: cut right behind its head, or somewhere in its frame
+                let b = gen_valid(rng, fb, false);
+                let wire = b.wire();
+                let head_len = b.head_bytes().len();
+                let frame_len = head_len + b.body_bytes().len();
+                let p = if rng.chance(1, 2) || frame_len == head_len { head_len } else { head_len + rng.below((frame_len - head_len) as u64) as usize };
+                let (segs, _) = segment(rng, &wire[..p], &interesting_offsets(&wire[..p], head_len.min(p)));
+                let m = Mutated { kind: "cut-after-abandoned", arrived: wire[..p].to_vec(), segs: segs.clone(), err_at: None };
+                let reads = if rng.chance(1, 3) {
+                    Reads::Drain(crate::resp::DRAIN_BYTES)
+                } else {
+                    // (a schedule that takes every piece that arrived and then sees how the body ends)
+                    let (ns, _) = read_schedule(rng, p.saturating_sub(head_len).min(4000), crate::p_c01::pieces(&b, segs.len(), crate::resp::max_buffer_len()));
+                    Reads::Sizes(ns)
+                };
+                let case = RespCase { method: "GET".into(), max_headers: 100, segs, reads };
+                let out = run_resp(&case);
+                let o = oracle(&b, &m, head_len, &case, &out, line_limit);
+                sink.push(Case {
+                    tags: vec![format!("framing={}", b.framing_name()), "mut=cut-after-abandoned".into(), format!("at={}", if p == head_len { "after-head" } else { "in-frame" }), format!("previous={}", a.framing_name())],
+                    op: case.op_line(),
+                    impl_line: out.line(),
+                    oracle: o,
+                });
+            }
+        }
+    }
+}
+
 pub fn generate(seed: u64, tier: &str, sink: &mut Sink) {
+    abandoned_then_cut(&mut Rng::new(seed ^ 0xC02A), tier == "thorough", sink);
     let mut rng = Rng::new(seed ^ 0xC02);
     let thorough = tier == "thorough";
     let n_base = if thorough { 6000 } else { 500 };
